@@ -100,7 +100,7 @@ Proof.
 Qed.
 
 Lemma cntev_filter_le e f l : (cntev e (filter f l) <= cntev e l)%nat.
-Proof. pose proof (cntev_partition e f l). lia. Qed.
+Proof. induction l as [|x l IH]; cbn [filter cntev]; [lia|]. destruct (f x); cbn [cntev]; lia. Qed.
 
 (** registering the queued subscriptions *)
 Lemma cnt_drain n k : forall q r,
@@ -184,7 +184,7 @@ Definition InvC (s : st) : Prop := forall k n,
 Lemma mem_nid_cons n n0 l : mem_nid n (n0 :: l) = (n =? n0) || mem_nid n l.
 Proof. reflexivity. Qed.
 
-Lemma cntev_filter_closed k n l : cntev (k, n) (filter (fun e => negb (snd e =? n)) l) = 0%nat.
+Lemma cntev_filter_closed k n l : cntev (k, n) (filter (fun e : ev => negb (snd e =? n)) l) = 0%nat.
 Proof.
   induction l as [|[k0 n0] l IH]; cbn [filter snd]; [reflexivity|].
   destruct (N.eqb_spec n0 n) as [->|Hne]; cbn [negb]; [exact IH|].
@@ -195,12 +195,12 @@ Qed.
 Lemma InvI_step s a : InvI s -> InvI (fst (step s a)).
 Proof.
   intros HI k n. specialize (HI k n) as HI0.
-  destruct a as [k0 n0| |n0|i|i|k0 m]; unfold step; cbn [step_gen].
+  destruct a as [k0 n0| |n0|i|i|k0 ms]; unfold step; cbn [step_gen].
   - destruct (mem_nid n0 (closed s)); cbn [fst regs subq waiting unsubq]; rewrite !cntev_app; cbn [cntev]; lia.
   - destruct (subq s) as [|e q] eqn:Eq; cbn [fst regs subq waiting unsubq]; [rewrite Eq; exact HI0|].
     rewrite cnt_register. cbn [cntev] in HI0. lia.
   - cbn [fst regs subq waiting unsubq]. rewrite cntev_app.
-    pose proof (cntev_partition (k, n) (fun e => snd e =? n0) (waiting s)). lia.
+    pose proof (cntev_partition (k, n) (fun e : ev => snd e =? n0) (waiting s)) as Hp. cbv beta in Hp. lia.
   - destruct (nth_error (waiting s) i) as [e|] eqn:En; cbn [fst regs subq waiting unsubq]; [|exact HI0].
     rewrite cntev_app. cbn [cntev]. pose proof (cntev_remove_nth (k, n) _ _ _ En). lia.
   - destruct (nth_error (unsubq s) i) as [e|] eqn:En; cbn [fst regs subq waiting unsubq]; [|exact HI0].
@@ -216,14 +216,14 @@ Qed.
 Lemma InvC_step s a : InvC s -> InvC (fst (step s a)).
 Proof.
   intros HC k n. specialize (HC k n) as HC0.
-  destruct a as [k0 n0| |n0|i|i|k0 m]; unfold step; cbn [step_gen].
+  destruct a as [k0 n0| |n0|i|i|k0 ms]; unfold step; cbn [step_gen].
   - destruct (mem_nid n0 (closed s)) eqn:Em; cbn [fst closed waiting]; [exact HC0|].
     intros Hn. rewrite cntev_app, (HC0 Hn). cbn [cntev]. rewrite evb_pair.
     destruct (N.eqb_spec n0 n) as [->|_]; [congruence|]. now rewrite andb_false_r.
   - destruct (subq s); cbn [fst closed waiting]; exact HC0.
   - cbn [fst closed waiting]. rewrite mem_nid_cons. intros Hn.
     destruct (N.eqb_spec n n0) as [->|Hne]; [apply cntev_filter_closed|].
-    cbn [orb] in Hn. pose proof (cntev_filter_le (k, n) (fun e => negb (snd e =? n0)) (waiting s)).
+    cbn [orb] in Hn. pose proof (cntev_filter_le (k, n) (fun e : ev => negb (snd e =? n0)) (waiting s)).
     rewrite (HC0 Hn) in H. lia.
   - destruct (nth_error (waiting s) i) as [e|] eqn:En; cbn [fst closed waiting]; [|exact HC0].
     intros Hn. pose proof (cntev_remove_nth (k, n) _ _ _ En). rewrite (HC0 Hn) in H. lia.
@@ -267,19 +267,29 @@ Proof.
   destruct ((n' =? n) && keyb k' k); cbn [app]; now rewrite IH.
 Qed.
 
-Lemma recv_notify n k k0 m l :
-  recv n k (map (fun n' => (n', k0, m)) l) = if keyb k0 k then repeat m (cnt n l) else [].
+Lemma recv_one n k x k0 ms :
+  recv n k (map (fun m => (x, k0, m)) ms) = if (x =? n) && keyb k0 k then ms else [].
 Proof.
-  induction l as [|x l IH]; cbn [map recv cnt]; [now destruct (keyb k0 k)|].
-  rewrite IH. destruct (keyb k0 k); [|now rewrite andb_false_r].
+  induction ms as [|m ms IH]; cbn [map recv]; [now destruct ((x =? n) && keyb k0 k)|].
+  rewrite IH. now destruct ((x =? n) && keyb k0 k).
+Qed.
+
+Lemma recv_notify n k k0 ms l :
+  recv n k (flat_map (fun n' => map (fun m => (n', k0, m)) ms) l) =
+  if keyb k0 k then concat (repeat ms (cnt n l)) else [].
+Proof.
+  induction l as [|x l IH]; cbn [flat_map cnt]; [now destruct (keyb k0 k)|].
+  rewrite recv_app, recv_one, IH. destruct (keyb k0 k); [|now rewrite andb_false_r].
   rewrite andb_true_r. destruct (x =? n); reflexivity.
 Qed.
 
-Lemma pubs_app k a1 a2 : pubs k (a1 ++ a2) = pubs k a1 ++ pubs k a2.
+Lemma pub_blocks_app k a1 a2 : pub_blocks k (a1 ++ a2) = pub_blocks k a1 ++ pub_blocks k a2.
 Proof.
-  induction a1 as [|a a1 IH]; [reflexivity|]. cbn [app pubs].
+  induction a1 as [|a a1 IH]; [reflexivity|]. cbn [app pub_blocks].
   destruct a; try exact IH. destruct (keyb k0 k); cbn [app]; now rewrite IH.
 Qed.
+Lemma pubs_app k a1 a2 : pubs k (a1 ++ a2) = pubs k a1 ++ pubs k a2.
+Proof. unfold pubs. now rewrite pub_blocks_app, concat_app. Qed.
 
 Definition quiet (s : st) (k : key) (n : nid) : Prop :=
   cnt n (lookup (regs s) k) = 0%nat /\ cntev (k, n) (subq s) = 0%nat /\
@@ -290,15 +300,15 @@ Lemma quiet_step s a k n : quiet s k n ->
   quiet (fst (step s a)) k n /\ recv n k (snd (step s a)) = [].
 Proof.
   intros (Hr & Hs & Hw & Hu) Ha.
-  destruct a as [k0 n0| |n0|i|i|k0 m]; unfold step; cbn [step_gen].
+  destruct a as [k0 n0| |n0|i|i|k0 ms]; unfold step; cbn [step_gen].
   - destruct (mem_nid n0 (closed s)); cbn [fst snd regs subq waiting unsubq]; unfold quiet;
       cbn [regs subq waiting unsubq]; rewrite !cntev_app; cbn [cntev]; rewrite Ha; repeat split; lia.
   - destruct (subq s) as [|e q] eqn:Eq; cbn [fst snd]; unfold quiet; cbn [regs subq waiting unsubq].
     + rewrite Eq. repeat split; assumption.
     + cbn [cntev] in Hs. rewrite cnt_register. destruct (evb e (k, n)); repeat split; lia.
   - cbn [fst snd]. unfold quiet; cbn [regs subq waiting unsubq]. rewrite cntev_app.
-    pose proof (cntev_filter_le (k, n) (fun e => negb (snd e =? n0)) (waiting s)).
-    pose proof (cntev_filter_le (k, n) (fun e => snd e =? n0) (waiting s)). repeat split; lia.
+    pose proof (cntev_filter_le (k, n) (fun e : ev => negb (snd e =? n0)) (waiting s)).
+    pose proof (cntev_filter_le (k, n) (fun e : ev => snd e =? n0) (waiting s)). repeat split; lia.
   - destruct (nth_error (waiting s) i) as [e|] eqn:En; cbn [fst snd]; unfold quiet; cbn [regs subq waiting unsubq];
       [|repeat split; assumption].
     pose proof (cntev_remove_nth (k, n) _ _ _ En). rewrite cntev_app. cbn [cntev].
@@ -309,7 +319,8 @@ Proof.
     rewrite cnt_unregister_other by exact (cntev_zero_nth _ _ _ _ Hu En). rewrite cnt_drain.
     repeat split; lia.
   - cbn [fst snd]. split; [repeat split; assumption|].
-    rewrite recv_notify, Hr. now destruct (keyb k0 k).
+    rewrite recv_notify. destruct (keyb k0 k) eqn:E; [|reflexivity].
+    apply keyb_eq in E. subst k0. now rewrite Hr.
 Qed.
 
 Lemma silent_run k n : forall acts s, quiet s k n -> no_subscribe_of (k, n) acts ->
@@ -342,7 +353,7 @@ Lemma cnt_step_mono s a k n :
   end ->
   (cnt n (lookup (regs s) k) <= cnt n (lookup (regs (fst (step s a))) k))%nat.
 Proof.
-  intros Ha. destruct a as [k0 n0| |n0|i|i|k0 m]; unfold step; cbn [step_gen].
+  intros Ha. destruct a as [k0 n0| |n0|i|i|k0 ms]; unfold step; cbn [step_gen].
   - destruct (mem_nid n0 (closed s)); cbn [fst regs]; lia.
   - destruct (subq s) as [|e q]; cbn [fst regs]; [lia|]. rewrite cnt_register. lia.
   - cbn [fst regs]. lia.
@@ -354,14 +365,14 @@ Qed.
 
 Lemma delivery_run k n : forall acts s,
   (1 <= cnt n (lookup (regs s) k))%nat -> no_unsub_of (k, n) s acts ->
-  Expand (pubs k acts) (recv n k (snd (run s acts))).
+  Expand (pub_blocks k acts) (recv n k (snd (run s acts))).
 Proof.
   induction acts as [|a t IH]; intros s Hc Hn; [constructor|].
   cbn [no_unsub_of] in Hn. destruct Hn as [Ha Ht].
   unfold run. rewrite run_snd_cons, recv_app. fold (step s a).
   pose proof (cnt_step_mono s a k n Ha) as Hm.
   specialize (IH (fst (step s a)) ltac:(lia) Ht).
-  destruct a as [k0 n0| |n0|i|i|k0 m]; cbn [pubs];
+  destruct a as [k0 n0| |n0|i|i|k0 ms]; cbn [pub_blocks];
     try (replace (recv n k (snd (step s _))) with (@nil msg); [exact IH|]; unfold step; cbn [step_gen]).
   - now destruct (mem_nid n0 (closed s)).
   - now destruct (subq s).
@@ -369,7 +380,7 @@ Proof.
   - now destruct (nth_error (waiting s) i).
   - now destruct (nth_error (unsubq s) i).
   - unfold step at 1; cbn [step_gen snd]. rewrite recv_notify.
-    destruct (keyb k0 k); [|exact IH]. now constructor.
+    destruct (keyb k0 k) eqn:E; [|exact IH]. apply keyb_eq in E. subst k0. now constructor.
 Qed.
 
 (** exactly once per registration when the number of registrations does not change *)
@@ -383,7 +394,7 @@ Lemma cnt_step_const s a k n :
   cnt n (lookup (regs (fst (step s a))) k) = cnt n (lookup (regs s) k) /\
   cntev (k, n) (subq (fst (step s a))) = 0%nat.
 Proof.
-  intros Ha Hs Hb. destruct a as [k0 n0| |n0|i|i|k0 m]; unfold step; cbn [step_gen].
+  intros Ha Hs Hb. destruct a as [k0 n0| |n0|i|i|k0 ms]; unfold step; cbn [step_gen].
   - destruct (mem_nid n0 (closed s)); cbn [fst regs subq]; rewrite cntev_app; cbn [cntev]; rewrite Hb; split; lia.
   - destruct (subq s) as [|e q] eqn:Eq; cbn [fst regs subq]; [rewrite Eq; split; [reflexivity | exact Hs]|].
     cbn [cntev] in Hs. rewrite cnt_register. destruct (evb e (k, n)); split; lia.
@@ -397,7 +408,7 @@ Qed.
 Lemma delivery_exact k n c : forall acts s,
   cnt n (lookup (regs s) k) = c -> cntev (k, n) (subq s) = 0%nat ->
   no_unsub_of (k, n) s acts -> no_subscribe_of (k, n) acts ->
-  recv n k (snd (run s acts)) = flat_map (fun m => repeat m c) (pubs k acts).
+  recv n k (snd (run s acts)) = concat (flat_map (fun b => repeat b c) (pub_blocks k acts)).
 Proof.
   induction acts as [|a t IH]; intros s Hc Hs Hn Hb; [reflexivity|].
   cbn [no_unsub_of] in Hn. destruct Hn as [Ha Ht].
@@ -407,15 +418,16 @@ Proof.
   destruct (cnt_step_const s a k n Ha Hs Hb1) as [Hc' Hs'].
   unfold run. rewrite run_snd_cons, recv_app. fold (step s a).
   specialize (IH (fst (step s a)) ltac:(congruence) Hs' Ht Hb2). unfold run in IH. rewrite IH.
-  destruct a as [k0 n0| |n0|i|i|k0 m]; cbn [pubs];
+  destruct a as [k0 n0| |n0|i|i|k0 ms]; cbn [pub_blocks];
     try (replace (recv n k (snd (step s _))) with (@nil msg); [reflexivity|]; unfold step; cbn [step_gen]).
   - now destruct (mem_nid n0 (closed s)).
   - now destruct (subq s).
   - reflexivity.
   - now destruct (nth_error (waiting s) i).
   - now destruct (nth_error (unsubq s) i).
-  - unfold step at 1; cbn [step_gen snd]. rewrite recv_notify, Hc.
-    destruct (keyb k0 k); reflexivity.
+  - unfold step at 1; cbn [step_gen snd]. rewrite recv_notify.
+    destruct (keyb k0 k) eqn:E; [|reflexivity]. apply keyb_eq in E. subst k0.
+    cbn [flat_map]. now rewrite concat_app, Hc.
 Qed.
 
 (** the registration takes effect when [process] takes the subscription from the queue *)
@@ -435,15 +447,59 @@ Qed.
 
 Lemma publish_reaches ns kind param param' m :
   param' = [] \/ param' = param ->
-  pubs (sub_key ns kind param') (publish ns kind param m) = [m].
+  pub_blocks (sub_key ns kind param') (publish ns kind param m) = [[m]].
 Proof.
   intros H. unfold publish, publish_keys, sub_key.
   destruct H as [->| ->].
-  - cbn [is_empty map pubs]. rewrite keyb_refl.
-    destruct param as [|c p]; cbn [is_empty map pubs]; [reflexivity|]. now rewrite keyb_longer.
-  - destruct param as [|c p]; cbn [is_empty map pubs].
+  - cbn [is_empty map pub_blocks]. rewrite keyb_refl.
+    destruct param as [|c p]; cbn [is_empty map pub_blocks]; [reflexivity|]. now rewrite keyb_longer.
+  - destruct param as [|c p]; cbn [is_empty map pub_blocks].
     + now rewrite keyb_refl.
     + rewrite keyb_sym, keyb_longer, keyb_refl. reflexivity.
+Qed.
+
+(** * PublishArray: grouping by key *)
+
+Lemma lookup_fold_register k : forall q r,
+  lookup (fold_left register q r) k = lookup r k ++ map snd (filter (fun e : ev => keyb (fst e) k) q).
+Proof.
+  induction q as [|[k1 m] q IH]; intros r; cbn [fold_left filter map fst]; [now rewrite app_nil_r|].
+  rewrite IH, lookup_register. cbn [fst snd].
+  destruct (keyb k1 k) eqn:E; cbn [map snd]; [|reflexivity].
+  apply keyb_eq in E. subst k1. now rewrite <- app_assoc.
+Qed.
+
+Lemma app_cons_inj (a : list N) x b1 b2 : a ++ x :: b1 = a ++ x :: b2 -> b1 = b2.
+Proof. intros E. apply app_inv_head in E. now injection E. Qed.
+
+(** a subscriber of the namespace-wide key is offered every message of the array, a subscriber
+    of a specific key the messages whose param is that key's, in list order *)
+Lemma array_group_of ns kind items param' :
+  lookup (array_groups ns kind items) (sub_key ns kind param') =
+  map snd (filter (fun it => is_empty param' || bytes_eqb (fst it) param') items).
+Proof.
+  unfold array_groups. rewrite lookup_fold_register. cbn [lookup app].
+  unfold array_events. induction items as [|[p m] items IH]; [reflexivity|].
+  cbn [flat_map fst snd]. rewrite filter_app, map_app, IH. clear IH. cbn [filter fst snd].
+  unfold sub_key. destruct param' as [|c' p']; cbn [is_empty orb].
+  - (* namespace-wide key *)
+    destruct p as [|c p]; cbn [is_empty filter app fst]; rewrite ?keyb_longer, keyb_refl; reflexivity.
+  - destruct p as [|c p]; cbn [is_empty filter app fst].
+    + rewrite keyb_sym, keyb_longer. cbn [map app]. reflexivity.
+    + rewrite (keyb_sym (key_prefix ns kind)), keyb_longer.
+      destruct (bytes_eqb (c :: p) (c' :: p')) eqn:E.
+      * apply bytes_eqb_eq in E. rewrite E, keyb_refl. reflexivity.
+      * replace (keyb (key_prefix ns kind ++ us :: c :: p) (key_prefix ns kind ++ us :: c' :: p')) with false; [reflexivity|].
+        symmetry. apply keyb_neq. intros E'. apply app_cons_inj in E'.
+        assert (bytes_eqb (c :: p) (c' :: p') = true) by (now apply bytes_eqb_eq). congruence.
+Qed.
+
+(** whatever order the groups are ranged over, the blocks published under a key are that key's groups *)
+Lemma array_blocks k g :
+  pub_blocks k (array_actions g) = map snd (filter (fun e : key * list msg => keyb (fst e) k) g).
+Proof.
+  unfold array_actions. induction g as [|[k1 ms] g IH]; [reflexivity|].
+  cbn [map pub_blocks filter fst snd]. destruct (keyb k1 k); cbn [map snd]; now rewrite IH.
 Qed.
 
 (** * the defects of the code before the repair, and the removal loop's skip *)
@@ -452,7 +508,7 @@ Definition k0 : key := [110; 115; 95; 107]%N.   (* "ns_k" *)
 
 (** subscribe, close at once, process takes the unsubscription first: n stays registered *)
 Lemma early_fire_orig :
-  let acts := [ASubscribe k0 1; AClose 1; AProcUnsub 0; AProcSub; APubKey k0 9] in
+  let acts := [ASubscribe k0 1; AClose 1; AProcUnsub 0; AProcSub; APub k0 [9]] in
   let s := fst (run_orig init acts) in
   mem_nid 1 (closed s) = true /\ unsubq s = [] /\ subq s = [] /\
   snd (run_orig init acts) = [(1, k0, 9)] /\ snd (run init acts) = [].
@@ -463,6 +519,6 @@ Proof. vm_compute. repeat split; reflexivity. Qed.
 Lemma skip_on_send :
   let pre := [ASubscribe k0 1; ASubscribe k0 1; AProcSub; AProcSub; AWake 0; AProcUnsub 0] in
   remove_skip 1 [1; 1] = [1] /\
-  snd (run init (pre ++ [APubKey k0 9])) = [(1, k0, 9)] /\
-  snd (run init (pre ++ [AClose 1; AProcUnsub 0; APubKey k0 9])) = [].
+  snd (run init (pre ++ [APub k0 [9]])) = [(1, k0, 9)] /\
+  snd (run init (pre ++ [AClose 1; AProcUnsub 0; APub k0 [9]])) = [].
 Proof. vm_compute. repeat split; reflexivity. Qed.
